@@ -205,7 +205,7 @@ func runCheck(prop, tier, repo, overlayFile, only string, writeEvidence, keep, v
 		reports = append(reports, giReps...)
 	}
 
-	timeout := 10
+	timeout := 20 // quick: 3 s for the default solver, then all configurations raced for 20 s
 	if tier == "thorough" {
 		timeout = 120
 	}
